@@ -195,6 +195,12 @@ def check(sc, tr, rc):
     # refusals are justified: stop requested before the send returned, or the queue may have been full
     stop_call = tr.stop[0] if tr.stop else None
     run_ret = tr.run[1]
+    if tr.stop is not None and tr.stop[0] >= tr.run[0]:
+        lag_ms = (run_ret - tr.stop[1]) / 1e6
+        after = [d for d in tr.deliveries if d[2] > tr.stop[1]]
+        if lag_ms > 1500 and len(after) <= 1:
+            V.append(f"run() returned {lag_ms:.0f} ms after request_stop() had returned with no further cycles in between (bounded "
+                     f"progress: 1500 ms): the stop request was missed by the waiting loop")
     acc_calls = sorted(s[3] for s in accepted.values())
     deliv_ts = sorted(d[2] for d in tr.deliveries for _ in d[4])
     refused = [s for s in sends if s[5] == 0]
